@@ -67,6 +67,7 @@ type recorder struct {
 	events     []eEvent
 	dieOnStart map[int][]int // name -> reasons for the next starts
 	sup        gen.PID
+	unknown    []string
 }
 
 var rec = &recorder{}
@@ -110,6 +111,15 @@ func e2eCode(e error) int {
 	}
 	if errors.Is(e, act.ErrSupervisorRestartsExceeded) {
 		return 5
+	}
+	if e != e2eAbnormal {
+		// not a reason the harness handed in: remember its text for the report
+		rec.Lock()
+		rec.unknown = append(rec.unknown, e.Error())
+		rec.Unlock()
+		if errors.Is(e, gen.ErrTaken) {
+			return 20
+		}
 	}
 	return 10
 }
@@ -456,9 +466,22 @@ func runE2ECase(node gen.Node, watcher gen.PID, c *eCase, stats map[string]int) 
 			Factory: factoryE2EChild, Args: []any{i + 1}})
 		ch = append(ch, fmt.Sprintf("(%d, %s)", i+1, util.B(sg)))
 	}
-	reply := make(chan startReply, 1)
-	node.Send(watcher, cmdStartSup{spec, reply, r.down})
-	sr := <-reply
+	// the children's registered names of the previous scenario may be released a moment after its
+	// processes have disappeared from the process table: retry the start (harness set-up, not the property)
+	var sr startReply
+	for try := 0; try < 50; try++ {
+		reply := make(chan startReply, 1)
+		node.Send(watcher, cmdStartSup{spec, reply, r.down})
+		sr = <-reply
+		if sr.err == nil || !errors.Is(sr.err, gen.ErrTaken) {
+			break
+		}
+		stats["start-retry"]++
+		time.Sleep(20 * time.Millisecond)
+		rec.Lock()
+		rec.events = nil
+		rec.Unlock()
+	}
 	if sr.err != nil {
 		return "", []string{"supervisor did not start: " + sr.err.Error()}
 	}
@@ -713,6 +736,14 @@ func runE2E(n int, out string, replay string, what string) {
 			panic(err)
 		}
 		cases = append(cases, &rp.Case)
+		// VERIF_E2E_REPEAT=n: run the replayed scenario n times on the same node (timing-dependent failures)
+		if v := os.Getenv("VERIF_E2E_REPEAT"); v != "" {
+			var k int
+			fmt.Sscanf(v, "%d", &k)
+			for i := 1; i < k; i++ {
+				cases = append(cases, &rp.Case)
+			}
+		}
 	} else {
 		fams := strings.Split(what, ",")
 		sort.Strings(fams)
@@ -732,6 +763,12 @@ func runE2E(n int, out string, replay string, what string) {
 		for _, f := range fails {
 			o.Monitor = append(o.Monitor, util.MonitorFail{Case: idx, What: f})
 		}
+		rec.Lock()
+		for _, u := range rec.unknown {
+			o.Stats["unexpected-reason:"+u]++
+		}
+		rec.unknown = nil
+		rec.Unlock()
 		o.Stats["runs"]++
 		o.Stats["family:"+c.Family]++
 		o.Stats["kind:"+c.Kind]++
